@@ -45,7 +45,7 @@ func (Prop) Rule() string {
 	return "Completeness (E2): 12 keys {1,2,n-2,2^255,8 hash-chain} x UID length {0(default),1,16,55,56,63,64,65,8191; 8192 must error} x message length {0,1,31,32,33,64,1000} x 16 scripted nonce blocks " +
 		"{0,1,n-2,n-1,n,n+1,2^256-1,mid and their byte[1]^0x42 images} x 7-8 signing entry points; every signature must equal the reference signature for the scripted k (GB/T 32918.2 with ecref), satisfy the reference verification equation and be accepted by 6 verification entry points. " +
 		"Soundness (E3): per (key,msg,UID,signature) triple (signature made by the reference) all 255 substitutions at every byte, all truncations/extensions, DER-aware edits of every TLV, structured r/s replacements and non-DER re-encodings, small (r,s) pairs, other key/message/UID; thorough adds all 2-deviation small-set mutants of two triples. " +
-		"Oracle in both directions for every candidate and entry point: library accepts <=> strict DER parse succeeds AND reference equation holds with r,s in [1,n-1]. " +
+		"Three additional triples with chosen small (r,s) on a crafted digest (k = s(1+d)+rd, e = r-x([k]G)) so that r+n and s+n fit in 32 bytes. Oracle in both directions for every candidate and entry point: library accepts <=> strict DER parse succeeds AND reference equation holds with r,s in [1,n-1]. " +
 		"Histories (E1): key objects with d in {valid, n-2, n-1, n, n+1, 2^256-1} built by 9 routes x BFS over all sequences of length <= 3 of {Sign(m1), Sign(digest), SignWithSM2, Decrypt, ECDH(), sm2.Sign func}, states merged on the full private state dump of the key object; d >= n-1: every Sign returns an error, nothing panics; valid d: signatures equal the reference. " +
 		"Legacy (non-SM2 curve, NIST P-256 through sm2_legacy.go): reduced completeness, one soundness triple, and invalid-scalar signing with a bounded reader. " +
 		"distinct_nontrivial counts (key,UID,msg,nonce) combinations, (triple, mutation class, parse/range class) classes and reached key-object states."
@@ -57,6 +57,7 @@ func (Prop) Assumptions() []string {
 		"the nonce of a signature is the first 32-byte block of the reader that is in [1,n-1] and passes the standard's r/s checks (read from sm2_dsa.go randomPoint); the 1-byte randutil.MaybeReadByte coin is served from a separate lane; byte-for-byte comparison with the reference signature relies on this",
 		"an empty UID means the default UID 1234567812345678 for the signing/verifying entry points (documented library semantics); CalculateZA is checked with the literal UID including the empty one",
 		"digests handed to VerifyASN1/Verify are exactly 32 bytes (the standard's e); longer/shorter 'hash' arguments are not enumerated",
+		"invalid public-key objects (off-curve, zero, negative, swapped, oversized coordinates) must be rejected without panic; oversized (> 256 bit) coordinates are not offered to the message-based entry points because CalculateSM2Hash documents a panic for invalid keys (soundness rule 2)",
 		"smx509 CheckSignature only supports the default UID and is exercised only for it; CheckSignatureFrom and chain building belong to C15",
 		"quick tier: soundness on 6 of the 12 triples; thorough: all 12 plus 2-deviation mutants of 2 triples (all 2-deviation mutants of all 12 triples would cost ~40 CPU-minutes per configuration)",
 		"legacy path: NIST P-256 as elliptic.P256() and wrapped so that only the generic elliptic.Curve methods are visible; the bare elliptic.P256() is skipped in the purego build because the Go 1.23 standard library's own p256Curve.Inverse panics there (nistec.P256OrdInverse unimplemented under -tags purego on amd64)",
@@ -246,16 +247,18 @@ var signEntries = []signEntry{
 
 // vctx is one verification context (public key, UID as passed to the library, message, reference digest).
 type vctx struct {
-	c        *ecref.Curve
-	g, p     *Table
-	pub      *ecdsa.PublicKey
-	cert     *smx509.Certificate
-	uid      []byte // as passed to the library (empty = default)
-	msg      []byte
-	e        []byte
-	defUID   bool
-	memo     map[string]bool
-	nEquEval int
+	c      *ecref.Curve
+	g, p   *Table
+	pub    *ecdsa.PublicKey
+	cert   *smx509.Certificate
+	uid    []byte // as passed to the library (empty = default)
+	msg    []byte
+	e      []byte
+	defUID bool
+	// digestOnly: the context has only a digest e (no message/UID); message-based entry points do not apply
+	digestOnly bool
+	memo       map[string]bool
+	nEquEval   int
 }
 
 func effUID(uid []byte) []byte {
@@ -303,6 +306,9 @@ var verifyEntries = []verifyEntry{
 		return sm2.VerifyASN1(v.pub, v.e, sig), true
 	}},
 	{"sm2.VerifyASN1WithSM2", func(v *vctx, sig []byte, r, s *big.Int, parsed bool) (bool, bool) {
+		if v.digestOnly {
+			return false, false
+		}
 		return sm2.VerifyASN1WithSM2(v.pub, v.uid, v.msg, sig), true
 	}},
 	{"sm2.Verify", func(v *vctx, sig []byte, r, s *big.Int, parsed bool) (bool, bool) {
@@ -312,13 +318,13 @@ var verifyEntries = []verifyEntry{
 		return sm2.Verify(v.pub, v.e, r, s), true
 	}},
 	{"sm2.VerifyWithSM2", func(v *vctx, sig []byte, r, s *big.Int, parsed bool) (bool, bool) {
-		if !parsed {
+		if !parsed || v.digestOnly {
 			return false, false
 		}
 		return sm2.VerifyWithSM2(v.pub, v.uid, v.msg, r, s), true
 	}},
 	{"smx509.Certificate.CheckSignature", func(v *vctx, sig []byte, r, s *big.Int, parsed bool) (bool, bool) {
-		if !v.defUID {
+		if !v.defUID || v.digestOnly {
 			return false, false
 		}
 		return v.cert.CheckSignature(smx509.SM2WithSM3, v.msg, sig) == nil, true
@@ -530,6 +536,84 @@ func makeTriple(i int) *triple {
 	return tr
 }
 
+// craftedTriple builds a valid signature with CHOSEN (r, s) on a crafted digest: k = s(1+d) + r*d, e = r - x([k]G) mod n.
+// Small r and s make r+n and s+n fit in 32 bytes, which is the only way a missing "< n" range check (as opposed
+// to a length check) can be observed. Only the digest-based entry points apply.
+func craftedTriple(i int) *triple {
+	c := ecref.SM2()
+	g := GTable()
+	key := Keys()[4+i]
+	var r, s *big.Int
+	switch i {
+	case 0:
+		r, s = big.NewInt(5), big.NewInt(7)
+	case 1:
+		r = new(big.Int).Add(new(big.Int).Lsh(big.NewInt(1), 223), big.NewInt(11))
+		s = new(big.Int).Add(new(big.Int).Lsh(big.NewInt(1), 222), big.NewInt(13))
+	default:
+		r, s = big.NewInt(1), new(big.Int).Sub(new(big.Int).Lsh(big.NewInt(1), 224), big.NewInt(1))
+	}
+	k := c.RecoverK(key.D, r, s)
+	x1 := g.Mul(k).X
+	e := new(big.Int).Sub(r, x1)
+	e.Mod(e, c.N)
+	eb := ecref.Bytes32(e)
+	if r2, s2, ok := FastSignWithK(c, g, key.D, k, eb); !ok || r2.Cmp(r) != 0 || s2.Cmp(s) != 0 {
+		panic("c06: crafted signature construction failed")
+	}
+	pub := LibPub(key.Pub)
+	v := &vctx{c: c, g: g, p: TableFor(c, key.Pub), pub: pub, cert: &smx509.Certificate{PublicKey: pub}, e: eb, digestOnly: true, memo: map[string]bool{}}
+	return &triple{idx: 100 + i, key: key, r: r, s: s, sig: ecref.EncodeDERSig(r, s), v: v}
+}
+
+func soundCraftedCase(t *engine.T, i int) {
+	tr := craftedTriple(i)
+	if !seedMustVerify(t, tr) {
+		return
+	}
+	buf := make([]byte, len(tr.sig))
+	for p := range tr.sig {
+		cl := "crafted/sub/" + fieldOf(tr.sig, p)
+		copy(buf, tr.sig)
+		for v := 0; v < 256; v++ {
+			if byte(v) == tr.sig[p] {
+				continue
+			}
+			buf[p] = byte(v)
+			tr.v.check(t, cl, fmt.Sprintf("sub@%d=%02x", p, v), buf)
+		}
+	}
+	engine.EachMutant(tr.sig, engine.MutOpt{AllValues: false, DER: true}, func(desc string, m []byte) {
+		if strings.HasPrefix(desc, "sub@") {
+			return
+		}
+		tr.v.check(t, "crafted/"+mutClass(tr.sig, desc), desc, m)
+	})
+	names, cands := structured(tr)
+	for j := range cands {
+		cl := names[j]
+		if strings.HasPrefix(cl, "enc/") {
+			cl = "crafted/struct/" + cl
+		} else {
+			cl = "crafted/struct/value/" + cl
+		}
+		tr.v.check(t, cl, names[j], cands[j])
+	}
+	// r + n and s + n fit in 32 bytes here: a reduction instead of a range check would accept them
+	n := ecref.SM2().N
+	rn, sn := new(big.Int).Add(tr.r, n), new(big.Int).Add(tr.s, n)
+	if rn.BitLen() > 256 || sn.BitLen() > 256 {
+		t.Fail("HARNESS/crafted-values-too-large", "triple %d", i)
+	}
+	tr.v.check(t, "crafted/struct/value/r=n+r(32-bytes)", "r+n in 32 bytes", sigOf(rn, tr.s))
+	tr.v.check(t, "crafted/struct/value/s=n+s(32-bytes)", "s+n in 32 bytes", sigOf(tr.r, sn))
+	tr.v.check(t, "crafted/struct/value/both+n(32-bytes)", "r+n, s+n in 32 bytes", sigOf(rn, sn))
+	t.Extra("reference_equation_evaluations", tr.v.nEquEval)
+	if i == 0 {
+		t.Sample(map[string]any{"part": "soundness (crafted small r,s on a chosen digest)", "key": tr.key.Name, "r": tr.r.String(), "s": tr.s.String(), "digest": fmt.Sprintf("%x", tr.v.e), "signature": fmt.Sprintf("%x", tr.sig)})
+	}
+}
+
 // fieldOf names the DER field of byte position i in a canonical signature.
 func fieldOf(sig []byte, i int) string {
 	// 30 L 02 lr r.. 02 ls s..
@@ -731,6 +815,51 @@ func soundOtherCase(t *engine.T, i int) {
 		}
 		newVctx(tr.key.Pub, u2, tr.msg).check(t, "other-uid", "valid signature for another UID", tr.sig)
 	}
+	// invalid public-key objects (off-curve, zero, negative or oversized coordinates): reject, never panic
+	{
+		cp := ecref.SM2().P
+		X, Y := tr.key.Pub.X, tr.key.Pub.Y
+		one := big.NewInt(1)
+		for _, pv := range []struct {
+			name string
+			x, y *big.Int
+		}{
+			{"y+1", X, new(big.Int).Add(Y, one)}, {"(0,0)", big.NewInt(0), big.NewInt(0)}, {"x+p", new(big.Int).Add(X, cp), Y}, {"y+p", X, new(big.Int).Add(Y, cp)},
+			{"-x", new(big.Int).Neg(X), Y}, {"-y", X, new(big.Int).Neg(Y)}, {"swapped", Y, X}, {"x+2^256", new(big.Int).Add(X, new(big.Int).Lsh(one, 256)), Y},
+		} {
+			bad := &ecdsa.PublicKey{Curve: sm2.P256(), X: pv.x, Y: pv.y}
+			cert := &smx509.Certificate{PublicKey: bad}
+			r, s := tr.r, tr.s
+			for _, en := range []struct {
+				name string
+				f    func() bool
+			}{
+				{"sm2.VerifyASN1", func() bool { return sm2.VerifyASN1(bad, tr.v.e, tr.sig) }},
+				{"sm2.VerifyASN1WithSM2", func() bool { return sm2.VerifyASN1WithSM2(bad, tr.uid, tr.msg, tr.sig) }},
+				{"sm2.Verify", func() bool { return sm2.Verify(bad, tr.v.e, r, s) }},
+				{"sm2.VerifyWithSM2", func() bool { return sm2.VerifyWithSM2(bad, tr.uid, tr.msg, r, s) }},
+				{"smx509.Certificate.CheckSignature", func() bool { return cert.CheckSignature(smx509.SM2WithSM3, tr.msg, tr.sig) == nil }},
+				{"smx509.Certificate.CheckSignatureWithDigest", func() bool { return cert.CheckSignatureWithDigest(smx509.SM2WithSM3, tr.v.e, tr.sig) == nil }},
+			} {
+				// CalculateSM2Hash documents "the public key must be valid, otherwise will be panic" (FillBytes on a
+				// coordinate wider than the field): a documented precondition, so oversized coordinates are offered
+				// only to the digest-based entry points.
+				msgBased := en.name == "sm2.VerifyASN1WithSM2" || en.name == "sm2.VerifyWithSM2" || en.name == "smx509.Certificate.CheckSignature"
+				if msgBased && (pv.x.BitLen() > 256 || pv.y.BitLen() > 256) {
+					continue
+				}
+				var got bool
+				if t.Guard("verify/"+en.name+"/invalid-public-key", func() { got = en.f() }) {
+					continue
+				}
+				t.Eval(1)
+				t.Nontrivial("invalid-public-key/" + pv.name)
+				if got {
+					t.Fail("verify/"+en.name+"/accepts-invalid/invalid-public-key", "%s accepted a signature under the invalid public key object %s: (%x,%x)", en.name, pv.name, pv.x, pv.y)
+				}
+			}
+		}
+	}
 	if len(tr.uid) > 0 { // signature made for a custom UID offered under the default one
 		newVctx(tr.key.Pub, nil, tr.msg).check(t, "other-uid", "valid signature for another UID (default)", tr.sig)
 	}
@@ -782,6 +911,10 @@ func (Prop) Run(c *engine.Ctx) {
 			c.Case(fmt.Sprintf("sound/triple=%d/sub255/bytes=%d..%d", i, from, from+7), func(t *engine.T) { soundSubCase(t, i, from, from+8) })
 		}
 		c.Case(fmt.Sprintf("sound/triple=%d/trunc+der+structured+other", i), func(t *engine.T) { soundOtherCase(t, i) })
+	}
+	for i := 0; i < 3; i++ {
+		i := i
+		c.Case(fmt.Sprintf("sound/crafted-small-rs=%d", i), func(t *engine.T) { soundCraftedCase(t, i) })
 	}
 	if !c.Quick() {
 		for _, i := range []int{5, 11} {
